@@ -476,3 +476,5 @@ CHECKS["C10"]["builds"] = CHECKS["C10"]["builds"] + [{"name": "tsmper_C10_omp",
 CHECKS["C10"]["runs"] = CHECKS["C10"]["runs"] + [{"driver": "tsmper_C10_omp", "args": ["--mode", "C10"], "slices": 64, "tag": "omp"}]
 CHECKS["C10"]["rule"] += (" The whole space is run a second time with the OpenMP executors (single tree and target/source) under the mock runtime, each execute() call "
                           "of the sequence under a named schedule (defer-all FIFO/LIFO/priority/inverted priority, run-at-creation, rotating with the case ordinal).")
+
+CHECKS["C08"]["replayable"] = False      # a C08 violation is a comparison of two runs; it is re-run through the enumeration
